@@ -119,6 +119,13 @@ def hlib_reset():
                                traps=[_d0.InvalidOperation, _d0.DivisionByZero, _d0.Overflow]))
 
 
+_POOL = []
+if isinstance(hlib.PARAM, dict) and "t1" in hlib.PARAM and "quick" in hlib.PARAM:
+    with hlib.native(unwalled=True):
+        for _k in range(5 * (len(SECOND_QUICK) if hlib.PARAM["quick"] else 3 * len(TEXTS)) + 8):
+            _POOL.append(SqParser())
+
+
 def history_pair(kind: int, si: int) -> None:
     """
     pre: 0 <= kind <= 4 and 0 <= si < 90
@@ -131,8 +138,11 @@ def history_pair(kind: int, si: int) -> None:
     hlib.assume(si < len(second))
     call2, t2 = second[si]
     c2 = ('parse', 'eval', 'list_names')[call2]
-    with hlib.native(unwalled=True):
-        p = SqParser()
+    if _POOL:
+        p = _POOL.pop()          # fresh parsers built at import (constructing one inside an explored path is ~10x slower)
+    else:
+        with hlib.native(unwalled=True):
+            p = SqParser()
     with hlib.native():
         hlib_reset()
         _first(p, kind, t1)
